@@ -2,6 +2,7 @@
    ParseBLOB_Recursive), field segments and the dictionary entries they stand for. *)
 From Coq Require Import String Ascii List Bool Arith.
 From KV Require Import Lib.Str Lib.ODict Gen.VppSrc Model.Vpp Model.VppWriter Model.Uml Model.UmlBlob Model.UmlWriter.
+From KV Require Export Model.UmlDomain.
 Import ListNotations.
 Open Scope string_scope.
 
@@ -16,9 +17,15 @@ Fixpoint bt_print (t : bt) : string :=
   end.
 Fixpoint bts_print (l : list bt) : string := match l with [] => "" | x :: r => bt_print x ++ bts_print r end.
 
-(* the characters of a text pushed onto the (reversed) outside of a frame *)
+(* the characters of a text pushed onto the (reversed) outside of a frame, the string state following them *)
 Fixpoint feed (s : string) (f : frame) : frame :=
-  match s with EmptyString => f | String c r => feed r {| f_out := String c (f_out f); f_children := f_children f |} end.
+  match s with
+  | EmptyString => f
+  | String c r => feed r {| f_out := String c (f_out f); f_children := f_children f; f_st := qstep (f_st f) c |}
+  end.
+
+(* after a child has been read the scanner is outside a quoted text and the previous character was its opening brace *)
+Definition resume (f : frame) : frame := {| f_out := f_out f; f_children := f_children f; f_st := qst0 |}.
 
 (* structural reading: texts go to the outside, a block is read on its own and becomes the next child *)
 Fixpoint bt_frame (t : bt) (f : option frame) : option frame :=
@@ -31,7 +38,7 @@ Fixpoint bt_frame (t : bt) (f : option frame) : option frame :=
           match (fix go (l : list bt) (acc : option frame) : option frame :=
                    match l with [] => acc | x :: r => go r (bt_frame x acc) end) l (Some frame0) with
           | None => None
-          | Some fr => match finalize fr with Some v => Some (add_child f0 v) | None => None end
+          | Some fr => match finalize fr with Some v => Some (add_child (resume f0) v) | None => None end
           end
       end
   end.
@@ -39,21 +46,28 @@ Fixpoint bts_frame (l : list bt) (acc : option frame) : option frame :=
   match l with [] => acc | x :: r => bts_frame r (bt_frame x acc) end.
 Definition sem (l : list bt) : option pv := match bts_frame l (Some frame0) with Some fr => finalize fr | None => None end.
 
-Fixpoint nobrace (s : string) : bool :=
-  match s with EmptyString => true | String c r => negb (Ascii.eqb c "{") && negb (Ascii.eqb c "}") && nobrace r end.
-Fixpoint bt_ok (t : bt) : bool :=
+(* a forest is well formed from a string state: texts hold no brace outside quoted text; a block starts and ends outside
+   quoted text; returns the state after it *)
+Fixpoint bt_scan (t : bt) (st : option qst) : option qst :=
   match t with
-  | BText s => nobrace s
-  | BBlock l => (fix go (l : list bt) : bool := match l with [] => true | x :: r => bt_ok x && go r end) l
+  | BText s => match st with Some q => if free_of ["{"; "}"]%char q s then Some (scan q s) else None | None => None end
+  | BBlock l =>
+      match st with
+      | None => None
+      | Some q =>
+          if q_in q then None
+          else match (fix go (l : list bt) (acc : option qst) : option qst :=
+                        match l with [] => acc | x :: r => go r (bt_scan x acc) end) l (Some qst0) with
+               | Some q' => if q_in q' then None else Some qst0
+               | None => None
+               end
+      end
   end.
-Fixpoint bts_ok (l : list bt) : bool := match l with [] => true | x :: r => bt_ok x && bts_ok r end.
+Fixpoint bts_scan (l : list bt) (st : option qst) : option qst :=
+  match l with [] => st | x :: r => bts_scan r (bt_scan x st) end.
+Definition bts_ok (l : list bt) : bool := match bts_scan l (Some qst0) with Some _ => true | None => false end.
 
 (* ---------------------------------------------------------------- field segments *)
-
-Definition in_chars (cs : list ascii) (s : string) : bool :=
-  (fix go (s : string) : bool := match s with EmptyString => true | String c r => existsb (Ascii.eqb c) cs && go r end) s.
-Definition wsok (s : string) : bool := in_chars [CR; LF; TAB] s.                                   (* line break and indentation *)
-Definition layok (s : string) : bool := in_chars [CR; LF; TAB; SP; "("; ")"; ","]%char s.            (* list punctuation *)
 
 (* the characters mass_replace deletes from str(bytes) text, and the alphabet on which that is all it does *)
 Definition dropped (c : ascii) : bool := existsb (Ascii.eqb c) [CR; LF; TAB; "="; "<"; ">"; ";"; """"; "("; ")"]%char.
@@ -62,18 +76,6 @@ Fixpoint alpha (s : string) : bool := match s with EmptyString => true | String 
 Fixpoint keepm (s : string) : string :=
   match s with EmptyString => "" | String c r => if dropped c then keepm r else String c (keepm r) end.
 
-(* a value as written: "text" or text *)
-Definition unq (v : string) : string :=
-  match v with
-  | String c r => if Ascii.eqb c DQ then substring 0 (String.length r - 1) r else v
-  | EmptyString => ""
-  end.
-
-Inductive seg :=
-| SField (ws k v : string)
-| SRefs (ws k o sep c : string) (ids : list string)
-| SChildren (ws k o sep c : string) (n : nat).
-
 Fixpoint rep (s : string) (n : nat) : string := match n with O => "" | S m => s ++ rep s m end.
 
 Definition seg_text (s : seg) : string :=
@@ -81,37 +83,23 @@ Definition seg_text (s : seg) : string :=
   | SField ws k v => ws ++ k ++ "=" ++ v ++ ";"
   | SRefs ws k o sep c ids => ws ++ k ++ "=" ++ o ++ refs_text sep ids ++ c ++ ";"
   | SChildren ws k o sep c n => ws ++ k ++ "=" ++ o ++ rep sep (n - 1) ++ c ++ ";"
+  | SRaw body => body ++ ";"
   end.
 
 Definition seg_fields (s : seg) (acc : list (string * pv)) : list (string * pv) :=
   match s with
-  | SField _ k v => if String.eqb (unq v) "" then acc else upsert String.eqb k (PStr (unq v)) acc
+  (* a value is dropped when nothing but commas and blanks is left of it; otherwise it is kept WITH its commas *)
+  | SField _ k v => if String.eqb (py_strip (remove_char "," (unq v))) "" then acc else upsert String.eqb k (PStr (unq v)) acc
   | SRefs _ k _ _ _ ids =>
       fst (fold_left (fun (st : list (string * pv) * nat) i => (upsert String.eqb (k ++ "_" ++ dec (snd st)) (PStr i) (fst st), S (snd st))) ids (acc, 0))
   | SChildren _ _ _ _ _ _ => acc
-  end.
-
-Definition keyok (k : string) : bool := plain k && no_char SP k && no_char "," k && negb (String.eqb k "").
-(* a plain text without leading / trailing blank and without ',' *)
-Definition textok (x : string) : bool := plain x && no_char "," x && String.eqb (py_strip x) x.
-Definition valok (v : string) : bool :=
-  (textok v && negb (prefixb dq v)) || (prefixb dq v && String.eqb v (dq ++ unq v ++ dq) && textok (unq v)).
-Definition idok (i : string) : bool := textok i && negb (String.eqb i "").
-
-Definition seg_ok (s : seg) : bool :=
-  match s with
-  | SField ws k v => wsok ws && keyok k && valok v
-  | SRefs ws k o sep c ids => wsok ws && keyok k && layok o && layok sep && layok c && forallb idok ids
-  | SChildren ws k o sep c _ => wsok ws && keyok k && layok o && layok sep && layok c
+  | SRaw body => vstep acc (repr_body SQ body)          (* free text: whatever the reader makes of that piece *)
   end.
 
 Definition segs_text (l : list seg) : string := String.concat "" (map seg_text l).
 Definition segs_fields (l : list seg) : list (string * pv) := fold_left (fun acc s => seg_fields s acc) l [].
 
-(* element headers  id:"name":Type  *)
-Definition name_text (nm : option string) : string := match nm with Some s => s | None => "NULL" end.
-Definition head_text (id : string) (nm : option string) (ty : string) : string := id ++ ":" ++ qname nm ++ ":" ++ ty ++ " ".
-Definition headok (id : string) (nm : option string) (ty : string) : bool :=
-  textok id && no_char ":" id && negb (String.eqb id "")
-  && match nm with Some s => textok s && no_char ":" s | None => true end
-  && textok ty && no_char ":" ty && negb (String.eqb ty "").
+Definition top_head (id : string) (nm : option string) (ty : string) : list (string * pv) :=
+  let parts := (split_on ":" (name_text nm) ++ [(ty ++ " '")%string])%list in
+  [("id", PStr (String "b" (String SQ id))); ("name", PStr (py_strip (nth 0 parts ""))); ("type", PStr (py_strip (nth 1 parts "")))].
+
